@@ -62,6 +62,11 @@ def make(K, table, axes=("X", "Y"), facedim="face", extra_fc=None, ds_variant=No
     fc = {facedim: table}
     if extra_fc:
         fc.update(extra_fc)
+    if ds_variant == "mapping-proxy":
+        # the table handed over as a read-only mapping (not a dict subclass), its rows too
+        import types
+
+        fc = types.MappingProxyType({facedim: types.MappingProxyType({f: types.MappingProxyType(dict(ax)) for f, ax in table.items()})})
     with warnings.catch_warnings():
         warnings.simplefilter("ignore")
         return Grid(ds, coords=gc, face_connections=fc, periodic=False, autoparse_metadata=False)
@@ -90,7 +95,7 @@ def check(rec, K, table, axes=("X", "Y"), sub="table", variant=None, labels=None
     if any(not present(f) and not any(l for pair in ax.values() for l in pair) for f, ax in table.items() if isinstance(f, int)):
         rec.counters["skipped:link-free row of an absent face (not classified)"] += 1
         return
-    want = predicate(K, table, axes, labels) and variant in (None, "flags-int", "flags-npbool", "links-as-lists", "no-face-coordinate")
+    want = predicate(K, table, axes, labels) and variant in (None, "flags-int", "flags-npbool", "links-as-lists", "no-face-coordinate", "mapping-proxy")
     nlinks = sum(1 for f in table for A in table[f] for l in table[f][A] if l)
     rec.case((K, tab_json(table), axes, variant, None if labels is None else tuple(labels)), nlinks > 0, sample=case if nlinks >= 2 else None)
     rec.outcomes["expected-accept" if want else "expected-reject"] += 1
@@ -99,7 +104,7 @@ def check(rec, K, table, axes=("X", "Y"), sub="table", variant=None, labels=None
             make(K, table, axes, extra_fc={"face2": {0: {}}})
         elif variant == "absent-face-dim":
             make(K, table, axes, facedim="tile")
-        elif variant in ("scalar-coordinate", "data-variable", "no-face-coordinate"):
+        elif variant in ("scalar-coordinate", "data-variable", "no-face-coordinate", "mapping-proxy"):
             make(K, table, axes, ds_variant=variant)
         elif variant in ("flags-int", "flags-npbool", "links-as-lists"):
             make(K, respell(table, {"flags-int": 1, "flags-npbool": 2, "links-as-lists": 3}[variant]), axes)
@@ -110,7 +115,7 @@ def check(rec, K, table, axes=("X", "Y"), sub="table", variant=None, labels=None
         ok = False
         err = e
     if ok and not want:
-        cls = "non-reciprocal-accepted" if variant in (None, "flags-int", "flags-npbool", "links-as-lists", "no-face-coordinate") else f"{variant}-accepted"
+        cls = "non-reciprocal-accepted" if variant in (None, "flags-int", "flags-npbool", "links-as-lists", "no-face-coordinate", "mapping-proxy") else f"{variant}-accepted"
         rec.violation(sub, cls, case, "raise", "Grid returned")
     elif not ok and want:
         rec.violation(sub, "reciprocal-rejected:" + exc_sig(err), case, "Grid", f"{type(err).__name__}: {err}"[:200])
@@ -253,6 +258,8 @@ def run_shard(shard, tier, seed, rec):
         for K_, t_ in ((2, ring3), (3, ring3), (4, ring3), (3, skip1), (2, skip1), (4, skip1)):
             check(rec, K_, t_, sub="no-face-coordinate", variant="no-face-coordinate")
         for i, t in enumerate(all_625()):
+            if i % 5 == 1:
+                check(rec, 2, t, axes=("X",), sub="mapping-types", variant="mapping-proxy")
             if i % 5 == 0:
                 check(rec, 2, t, axes=("X",), sub="no-face-coordinate", variant="no-face-coordinate")
                 check(rec, 3, t, axes=("X",), sub="no-face-coordinate", variant="no-face-coordinate")
